@@ -22,7 +22,7 @@ using namespace asmjit;
 
 static const uint64_t kBase = 0x10000000ull;
 
-struct ParsedOp { Operand_ op; bool is_label = false; bool is_mem_label = false; int64_t label_off = 0; };
+struct ParsedOp { Operand_ op; ParsedOp() { op.reset(); } bool is_label = false; bool is_mem_label = false; int64_t label_off = 0; };
 
 static bool split_dots(const std::string& s, std::vector<std::string>& out) {
   out.clear();
